@@ -11,9 +11,10 @@ symmetry; fidelity = 1 iff same signed group; canonical form / equality depend o
 Formal specification check (n <= 3): the Lean predicates of the fidelity theorems (`Orth`, the common subgroup A ∩ B) are evaluated on
 every pair through their brute-force executable versions (`stab.overlap`: `orthB_iff`, `commonB_iff` proved exact) and compared with
 the REAL fidelity and with the elimination oracle — so the statement the theorems are about is itself tied to the code's values.
-The hypothesis `hzero` of the fidelity theorems (the synthesis of the first argument reached |0..0>) is evaluated by the model on both
-arguments of every pair (`stab.inv ... zero=`); a wrong fidelity with `zero=1` on both would contradict the theorems and is a VIOLATION,
-with `zero=0` it is the known finding D42.
+The former hypothesis `hzero` of the fidelity theorems (the synthesis of the first argument reached |0..0>) is now itself a theorem
+(`C11.inverse_circuit_ends_in_zero`, D42 repaired in graphiq 74abae4), so the fidelity theorems are unconditional; as a regression it is
+still evaluated by the model on both arguments of every pair (`stab.inv ... zero=`): `zero=0` on a valid state breaks the correspondence
+(`stab.inv:model-not-zero`), and any wrong fidelity is a VIOLATION.
 """
 import numpy as np
 
@@ -25,7 +26,7 @@ LEVEL = "proof"
 TRUSTED_BASE = [
     "Lean 4.33 kernel",
     "hand-written model GraphiqModel/Model/StabTableau.lean (canonical_form, inverse_circuit, inner_product) tied to stabilizer.py/metric.py by this correspondence run",
-    "stabilizer inner-product formula |<a|b>|^2 = 0 (if P in A, -P in B) or 2^-(n-dim(A∩B)) (textbook; the Lean theorems prove inner_product = this group-level value under hzero, the Hilbert-space reading is cited), cross-checked against dense matrices for n<=5 on every run",
+    "stabilizer inner-product formula |<a|b>|^2 = 0 (if P in A, -P in B) or 2^-(n-dim(A∩B)) (textbook; the Lean theorems prove inner_product = this group-level value AND = tr(rho_a rho_b) (fidelity_is_state_overlap) unconditionally for all n; only tr(rho_a rho_b) = |<a|b>|^2 for a rank-one projector is left to the textbook), cross-checked against dense matrices for n<=5 on every run",
     "harness, line protocol, independent Python GF(2) elimination",
 ]
 ASSUMPTIONS = ["inputs are valid Clifford tableaux of pure states"]
@@ -76,9 +77,17 @@ def overlap_spec(a, b):
     return ("k", n - len(kernel))
 
 
+COV = None  # harness.c11.LineCov over inner_product / fidelity / canonical_form / inverse_circuit of the implementation (set in run())
+
+
 def impl_fidelity(a, b):
     from graphiq.backends.stabilizer.functions import metric as sfm
 
+    if COV is not None and a.n_qubits <= 8:
+        with COV:
+            f = sfm.fidelity(a.copy(), b.copy())
+        COV.res.branch(COV.labels())
+        return f
     return sfm.fidelity(a.copy(), b.copy())
 
 
@@ -210,6 +219,14 @@ def run(ctx, budget=1.0):
     drv = Driver()
     rng = ctx.rng
     pending = []
+    global COV
+    from graphiq.backends.stabilizer.functions import metric as sfm_cov
+    from graphiq.backends.stabilizer.functions import stabilizer as sfs_cov
+    from harness.c11 import LineCov
+
+    # line coverage of the real functions (sys.settrace, no hook in /repo): which branches the generated pairs reach
+    COV = LineCov(sfm_cov.fidelity, sfm_cov.inner_product, sfs_cov.canonical_form, sfs_cov.inverse_circuit)
+    COV.res = res
     # corpus: the witness of the repaired D42 against itself (re-gauged); must pass like any other pair
     from graphiq.backends.stabilizer.functions.rep_conversion import clifford_from_stabilizer  # noqa: F401
     from harness.c11 import stab_of_args
@@ -260,6 +277,11 @@ def run(ctx, budget=1.0):
     res.exhaustive = True
     res.notes.append("exhaustive over all ordered pairs of stabilizer states for n<=2; sampled for n=3 and above")
     res.extra["driver_lines"] = drv.n_lines
+    unreached = COV.unreached()
+    res.extra["unreached_lines"] = unreached
+    res.notes.append("line coverage of the real fidelity/inner_product/canonical_form/inverse_circuit (sys.settrace, n<=8): per-line hit counts in "
+                     "`branches`; " + ("every line was reached" if not unreached else "lines no generated pair reached: " + " | ".join(unreached)))
+    COV = None
     drv.close()
     return res
 
